@@ -21,6 +21,11 @@ Static clauses decided (necessary conditions of C15):
          Entity._delete_ that deletes the dependents of a Set attribute iterates the SetInstance wrapper obtained from
          attr.__get__(obj) (iteration loads the collection) and never the raw cached SetData (obj._vals_[attr]); dependents
          that were not loaded yet would otherwise be skipped together with their own refuse/cascade rules.
+ FKSTATE a ddl session switches the database's foreign-key enforcement off and the provider's release() switches it back on iff the
+         state it saved was "on".  A session may begin several transactions (commit() in the middle): the saved state must be
+         recorded once per session -- the store `cache.saved_fk_state = bool(fk)` in set_transaction_mode is guarded by a test of
+         the saved state (or combines with it); an unconditional store records "off" on the second transaction, enforcement is
+         never restored on that connection, and later bulk deletes leave dangling references (SQLite and MySQL providers).
  BULK    Query.delete(bulk=False) deletes through obj._delete_() (cascade rules apply); the bulk branch is an explicit
          opt-in parameter defaulting to None/False.
 """
@@ -154,6 +159,31 @@ def run(ctx):
                '' if ok else 'the cascade loop iterates `%s`%s: only the dependents already cached in the session are deleted (and checked against their own '
                'rules); rows not loaded yet are skipped' % (src, (' = ' + ' / '.join(defs)) if defs else ''), node=lp, expected='iterate attr.__get__(obj) (loads the collection)')
     ctx.floor('C15-LOAD', nl, 1, 'cascade loops over collections')
+    # ---------------------------------------------------------------- FKSTATE
+    nfk = 0
+    for modname, q in (('pony.orm.dbproviders.sqlite', 'SQLiteProvider'), ('pony.orm.dbproviders.mysql', 'MySQLProvider')):
+        stm = repo.fn(modname, q + '.set_transaction_mode'); rel = repo.fn(modname, q + '.release')
+        par_ = {}
+        for x in ast.walk(stm.node):
+            for ch in ast.iter_child_nodes(x): par_[id(ch)] = x
+        stores = [a for a in walk_no_nested(stm.node) if isinstance(a, ast.Assign) and any((dotted(t) or '').endswith('.saved_fk_state') for t in a.targets)]
+        ctx.need(bool(stores), 'C15-FKSTATE: %s.set_transaction_mode no longer records saved_fk_state' % q)
+        for a in stores:
+            nfk += 1
+            guarded = 'saved_fk_state' in norm(a.value)
+            x = a
+            while id(x) in par_ and not guarded:
+                x = par_[id(x)]
+                if isinstance(x, ast.If) and 'saved_fk_state' in norm(x.test): guarded = True
+            ctx.ob('C15-FKSTATE.saved-state-recorded-once-per-session', stm, a, guarded,
+                   '' if guarded else 'the foreign-key state is overwritten on every transaction start: the second transaction of a ddl session (after commit()) reads '
+                   '"off" -- its own doing -- and records that; release() then never re-enables enforcement on this connection', node=a,
+                   expected='if cache.saved_fk_state is None: cache.saved_fk_state = bool(fk)')
+        restores = [t for t in walk_no_nested(rel.node) if isinstance(t, ast.If) and 'saved_fk_state' in norm(t.test)]
+        ok = bool(restores) and any(isinstance(c_, ast.Constant) and isinstance(c_.value, str) and ('foreign_keys = true' in c_.value or 'foreign_key_checks = 1' in c_.value)
+                                    for r in restores for c_ in ast.walk(r))
+        ctx.ob('C15-FKSTATE.release-restores-enforcement', rel, restores[0].test if restores else rel.node, ok, '' if ok else '%s.release does not switch foreign-key enforcement back on' % q)
+    ctx.floor('C15-FKSTATE', nfk, 2, 'stores of saved_fk_state')
     # ---------------------------------------------------------------- BULK
     qd = repo.fn(CORE, 'Query.delete')
     g = cg.cfg(qd)
@@ -172,6 +202,7 @@ def run(ctx):
 
 
 MUTANTS = [
+    dict(id='C15-f1', file='pony/orm/dbproviders/sqlite.py', fn='SQLiteProvider.set_transaction_mode', old="                if cache.saved_fk_state is None:  # keep the state saved by an earlier transaction of this session\n                    cache.saved_fk_state = bool(fk)", new="                cache.saved_fk_state = bool(fk)", expect='C15-FKSTATE'),
     dict(id='C15-l1', file='pony/orm/core.py', fn='Entity._delete_', old="for robj in set_wrapper: robj._delete_(undo_funcs)", new="for robj in list(obj._vals_[attr]): robj._delete_(undo_funcs)", expect='C15-LOAD'),
     dict(id='C15-m1', file='pony/orm/core.py', fn='Entity._delete_', old="                        elif not attr.reverse.is_required: attr.__set__(obj, (), undo_funcs)", new="                        elif attr.reverse.is_required: attr.__set__(obj, (), undo_funcs)", expect='C15-TABLE'),
     dict(id='C15-m2', file='pony/orm/core.py', fn='Entity._delete_', old="                            elif not reverse.is_required: reverse.__set__(val, None, undo_funcs)\n                            else: throw(ConstraintError,",
